@@ -287,3 +287,136 @@ pub extern "C" fn h_c16_infer() {
     }
     check(same, "annotated-version-is-neither-more-nor-less-permissive");
 }
+
+// ------------------------------------------------------------------------------------------------------------
+// C06 — a failing input leaves the session unchanged (the failing statement has symbolic token kinds)
+//
+//   cfg 0 = token pattern of the LAST statement of the input (an expression statement; kinds symbolic as above;
+//           Identifier tokens are the name given in cfg 4, Number tokens the literal 2)
+//   cfg 1 = session prelude
+//   cfg 2 = the statements that precede the failing one IN THE SAME INPUT (definitions that succeed on their own)
+//   cfg 3 = probes, separated by `;` — evaluated before and after the input
+//   cfg 4 = the lexeme of Identifier tokens
+//
+// The input `<cfg 2>\n<expression>` is submitted to a real session. If it fails at any stage (parse, name resolution,
+// type check, run time), every probe must give the same result or the same class of error as before the input, and
+// the successful prefix alone must afterwards be accepted with the same results as in a session that never saw the
+// failing input.
+
+#[unsafe(no_mangle)]
+pub extern "C" fn h_c06_rollback() {
+    init_tags();
+    let prelude = cfg(1).expect("cfg 1");
+    let prefix = cfg(2).expect("cfg 2");
+    let probes: Vec<String> = cfg(3).expect("cfg 3").split(';').map(|s| s.trim().to_string()).filter(|s| !s.is_empty()).collect();
+    let ident = cfg(4).map(|s| s.trim().to_string()).unwrap_or_else(|| String::from("x"));
+    let mut session = Session::new(&prelude);
+    let mut twin = Session::new(&prelude);
+    checkpoint();
+    let pattern = cfg(0).expect("cfg 0");
+    let mut ks: Vec<u64> = Vec::new();
+    for (i, item) in pattern.split_ascii_whitespace().enumerate() {
+        if item == "s" || item == "o" {
+            let k = u64_(i as u32);
+            let mut ok = false;
+            if item == "s" {
+                for a in 0..K {
+                    ok |= k == tag(a);
+                }
+            } else {
+                for a in OPS {
+                    ok |= k == tag(a);
+                }
+            }
+            assume(ok);
+            ks.push(k);
+        } else {
+            ks.push(tag(item.parse().expect("kind index")));
+        }
+    }
+    if ks.is_empty() {
+        return;
+    }
+    // the real parser on the symbolic kinds: a rejected prefix of the sequence ends here for all its completions,
+    // of which ONE (a witness from the solver) is carried on as the representative parse error
+    let tokens = make_tokens(&ks);
+    let grammatical = verif_parse_tokens(&tokens).is_ok();
+    let a = alphabet();
+    let mut text = String::new();
+    for &k in &ks {
+        let k = pick(k);
+        let mut idx = K;
+        for i in 0..K {
+            if k == tag(i) {
+                idx = i;
+                break;
+            }
+        }
+        if !text.is_empty() {
+            text.push(' ');
+        }
+        text.push_str(if idx == NUM {
+            "2"
+        } else if idx == ID {
+            ident.as_str()
+        } else {
+            a[idx as usize].1
+        });
+    }
+    obs_str("c06-last-statement", &text);
+    let input = format!("{prefix}\n{text}");
+    let before: Vec<String> = probes.iter().map(|p| eval_key(&mut session, p)).collect();
+    let outcome = eval_key(&mut session, &input);
+    if outcome.starts_with("ok:") {
+        cover("c06-input-succeeded");
+        return;
+    }
+    cover("c06-input-failed");
+    if !grammatical {
+        cover("c06-parse-error");
+    }
+    if outcome.starts_with("err:name") {
+        cover("c06-name-error");
+    }
+    if outcome.starts_with("err:type") {
+        cover("c06-type-error");
+    }
+    if outcome.starts_with("err:runtime") {
+        cover("c06-runtime-error");
+    }
+    obs_str("c06-failure", &outcome);
+    let mut same = true;
+    for (i, p) in probes.iter().enumerate() {
+        let after = eval_key(&mut session, p);
+        if after != before[i] {
+            same = false;
+            obs_str("c06-probe", p);
+            obs_str("c06-before", &before[i]);
+            obs_str("c06-after", &after);
+        }
+    }
+    check(same, "probes-behave-as-before-the-failing-input");
+    // later inputs: the successful prefix on its own, then the probes again — compared with a twin session that never
+    // saw the failing input (it evaluates the probes once, as the first session did before the input)
+    for p in &probes {
+        let _ = eval_key(&mut twin, p);
+    }
+    for p in &probes {
+        let _ = eval_key(&mut twin, p);
+    }
+    let r1 = eval_key(&mut session, &prefix);
+    let r2 = eval_key(&mut twin, &prefix);
+    check(r1 == r2, "later-input-gives-the-same-result-as-in-a-session-without-the-failure");
+    let mut same2 = true;
+    for p in &probes {
+        let x = eval_key(&mut session, p);
+        let y = eval_key(&mut twin, p);
+        if x != y {
+            same2 = false;
+            obs_str("c06-probe", p);
+            obs_str("c06-with-failure", &x);
+            obs_str("c06-without-failure", &y);
+        }
+    }
+    check(same2, "later-probes-give-the-same-results-as-in-a-session-without-the-failure");
+}
